@@ -101,12 +101,14 @@ Theorem C07_unterminated_string_selected_is_error : forall rec fs fname inc asm 
   line_step rec fs fname inc asm p line buf = PErr (mkErr ESyntax fname line inc "Unterminated string").
 Proof. exact unterminated_string_selected_is_error. Qed.
 
-(** a directive the machine does not know (#pragma ...) is ignored in a state that is not Active *)
+(** a directive the machine does not know (#pragma ...) is ignored in a state that is not Active
+    ([hash_blanks out]: the scanned text without the blanks between a leading '#' and the
+    directive name; [directive_name_arg]: '#' and the letters that follow it, then the argument) *)
 Theorem C07_skipped_unknown_directive_ignored : forall rec fs fname inc asm p line buf out ins sc,
   p_state p <> Active ->
   scan_parts (scan_line asm buf (c_scan (p_ctx p))) = (out, ins, sc) ->
-  early_directive (trim out) = false ->
-  known_directive (fst (directive_parts (trim (replace_all_c (c_macros (p_ctx p)) out)))) = false ->
+  early_directive (trim (hash_blanks out)) = false ->
+  known_directive (fst (directive_name_arg (trim (replace_all_c (c_macros (p_ctx p)) (hash_blanks out))))) = false ->
   line_step rec fs fname inc asm p line buf = POk (set_scan p sc).
 Proof. exact skipped_unknown_directive_ignored. Qed.
 
@@ -114,9 +116,9 @@ Proof. exact skipped_unknown_directive_ignored. Qed.
 Theorem C07_unknown_directive_selected_is_error : forall rec fs fname inc asm p line buf out sc,
   p_state p = Active ->
   scan_line asm buf (c_scan (p_ctx p)) = ScanOk out true sc ->
-  early_directive (trim out) = false ->
-  starts_with "#" (trim (replace_all_c (c_macros (p_ctx p)) out)) = true ->
-  known_directive (fst (directive_parts (trim (replace_all_c (c_macros (p_ctx p)) out)))) = false ->
+  early_directive (trim (hash_blanks out)) = false ->
+  starts_with "#" (trim (replace_all_c (c_macros (p_ctx p)) (hash_blanks out))) = true ->
+  known_directive (fst (directive_name_arg (trim (replace_all_c (c_macros (p_ctx p)) (hash_blanks out))))) = false ->
   line_step rec fs fname inc asm p line buf
   = PErr (mkErr ESyntax fname line inc "Unrecognised preprocessor directive").
 Proof. exact unknown_directive_selected_is_error. Qed.
@@ -126,8 +128,8 @@ Proof. exact unknown_directive_selected_is_error. Qed.
 Theorem C07_skipped_if_pushes_skip : forall rec fs fname inc asm p line buf out sc arg,
   p_state p <> Active ->
   scan_parts (scan_line asm buf (c_scan (p_ctx p))) = (out, true, sc) ->
-  early_directive (trim out) = false ->
-  directive_parts (trim (replace_all_c (c_macros (p_ctx p)) out)) = ("#if", arg) ->
+  early_directive (trim (hash_blanks out)) = false ->
+  directive_name_arg (trim (replace_all_c (c_macros (p_ctx p)) (hash_blanks out))) = ("#if", arg) ->
   line_step rec fs fname inc asm p line buf
   = POk (set_state (set_scan p sc) Skip (p_state p :: p_stack p)).
 Proof. exact skipped_if_pushes_skip. Qed.
@@ -135,8 +137,8 @@ Proof. exact skipped_if_pushes_skip. Qed.
 Theorem C07_if_without_expression_selected_is_error : forall rec fs fname inc asm p line buf out sc,
   p_state p = Active ->
   scan_line asm buf (c_scan (p_ctx p)) = ScanOk out true sc ->
-  early_directive (trim out) = false ->
-  directive_parts (trim (replace_all_c (c_macros (p_ctx p)) out)) = ("#if", None) ->
+  early_directive (trim (hash_blanks out)) = false ->
+  directive_name_arg (trim (replace_all_c (c_macros (p_ctx p)) (hash_blanks out))) = ("#if", None) ->
   line_step rec fs fname inc asm p line buf
   = PErr (mkErr ESyntax fname line inc "Expected expression after `#if`").
 Proof. exact if_without_expression_selected_is_error. Qed.
@@ -145,16 +147,16 @@ Proof. exact if_without_expression_selected_is_error. Qed.
 Theorem C07_elif_not_inactive_skips : forall rec fs fname inc asm p line buf out sc arg,
   p_state p <> Inactive ->
   scan_gives (p_state p) (scan_line asm buf (c_scan (p_ctx p))) out true sc ->
-  early_directive (trim out) = false ->
-  directive_parts (trim (replace_all_c (c_macros (p_ctx p)) out)) = ("#elif", arg) ->
+  early_directive (trim (hash_blanks out)) = false ->
+  directive_name_arg (trim (replace_all_c (c_macros (p_ctx p)) (hash_blanks out))) = ("#elif", arg) ->
   line_step rec fs fname inc asm p line buf = POk (set_state (set_scan p sc) Skip (p_stack p)).
 Proof. exact elif_not_inactive_skips. Qed.
 
 Theorem C07_elif_without_expression_inactive_is_error : forall rec fs fname inc asm p line buf out sc,
   p_state p = Inactive ->
   scan_parts (scan_line asm buf (c_scan (p_ctx p))) = (out, true, sc) ->
-  early_directive (trim out) = false ->
-  directive_parts (trim (replace_all_c (c_macros (p_ctx p)) out)) = ("#elif", None) ->
+  early_directive (trim (hash_blanks out)) = false ->
+  directive_name_arg (trim (replace_all_c (c_macros (p_ctx p)) (hash_blanks out))) = ("#elif", None) ->
   line_step rec fs fname inc asm p line buf
   = PErr (mkErr ESyntax fname line inc "Expected expression after `#elif`").
 Proof. exact elif_without_expression_inactive_is_error. Qed.
@@ -172,6 +174,28 @@ Example C07_unterminated_selected_example :
   run_cpp [] "m.c" [] (map (fun l => l ++ nl) ["this isn't ""closed"; "#pragma once"; "ok"])
   = PErr (mkErr ESyntax "m.c" 1 None "Unterminated string").
 Proof. vm_compute. reflexivity. Qed.
+
+(** blanks after the '#' and directive names that end at the first non-letter *)
+Example C07_blank_after_hash_else_example :
+  match run_cpp [] "m.c" [] (map (fun l => l ++ nl) ["#if 0"; "A"; "# else"; "B"; "#endif"; "tail"]) with
+  | POk p => p_out p = "B" ++ nl ++ "tail" ++ nl /\ p_state p = Active /\ p_stack p = []
+  | PErr _ => False
+  end.
+Proof. exact blank_after_hash_else_example. Qed.
+
+Example C07_nested_if_bang_example :
+  match run_cpp [] "m.c" [] (map (fun l => l ++ nl) ["#if 0"; "#if!FOO"; "x"; "#endif"; "#endif"; "tail"]) with
+  | POk p => p_out p = "tail" ++ nl /\ p_state p = Active /\ p_stack p = []
+  | PErr _ => False
+  end.
+Proof. exact nested_if_bang_example. Qed.
+
+Example C07_if_bang_defined_example :
+  match run_cpp [] "m.c" [("N", "1")] (map (fun l => l ++ nl) ["#if!N"; "a"; "#else"; "b"; "#endif"]) with
+  | POk p => p_out p = "b" ++ nl
+  | PErr _ => False
+  end.
+Proof. exact (proj1 if_bang_defined_example). Qed.
 
 (** the evaluator is C's on expressions over 0, 1, ! and == *)
 Theorem C07_evaluate_bool_correct : forall e : bexp, evaluate (print e) = EvOk (value e) "".
